@@ -139,6 +139,85 @@ func runFind17(toks []string) string {
 	return string(b)
 }
 
+// findrev <n> (<file name hex> <text hex>){n} <nq> (<start module key hex> <nsteps> step* <path hex>){nq}
+//   several revisions of one module may be loaded; the start module is given by its key in Modules.Modules
+//   ("name" or "name@revision").  Output: "loaderr" | "err" | "ok r1 r2 ..." with
+//   r = "-" (nil) | "nostart" | "<full name of the module whose entry tree holds the result>|<hex of Entry.Path()>"
+//   (the tree is identified by pointer: the root reached through Parent is ToEntry(m) of exactly that module).
+func runFindRev(toks []string) string {
+	n, _ := strconv.Atoi(toks[0])
+	ms := yang.NewModules()
+	pos := 1
+	for i := 0; i < n; i++ {
+		name, text := string(unhex(toks[pos])), string(unhex(toks[pos+1]))
+		pos += 2
+		if err := ms.Parse(text, name); err != nil {
+			return "loaderr"
+		}
+	}
+	if errs := ms.Process(); len(errs) != 0 {
+		return "err " + enhex([]byte(errs[0].Error()))
+	}
+	roots := map[*yang.Entry]string{}
+	for _, m := range ms.Modules {
+		roots[yang.ToEntry(m)] = m.FullName()
+	}
+	nq, _ := strconv.Atoi(toks[pos])
+	pos++
+	out := []string{"ok"}
+	for q := 0; q < nq; q++ {
+		var e *yang.Entry
+		if m := ms.Modules[string(unhex(toks[pos]))]; m != nil {
+			e = yang.ToEntry(m)
+		}
+		ns, _ := strconv.Atoi(toks[pos+1])
+		pos += 2
+		for i := 0; i < ns; i++ {
+			t := toks[pos]
+			pos++
+			switch {
+			case e == nil:
+			case t == "I":
+				if e.RPC != nil {
+					e = e.RPC.Input
+				} else {
+					e = nil
+				}
+			case t == "O":
+				if e.RPC != nil {
+					e = e.RPC.Output
+				} else {
+					e = nil
+				}
+			default:
+				e = e.Dir[string(unhex(t[1:]))]
+			}
+		}
+		path := string(unhex(toks[pos]))
+		pos++
+		if e == nil {
+			out = append(out, "nostart")
+			continue
+		}
+		got := e.Find(path)
+		if got == nil {
+			out = append(out, "-")
+			continue
+		}
+		r := got
+		for r.Parent != nil {
+			r = r.Parent
+		}
+		name, ok := roots[r]
+		if !ok {
+			name = "?"
+		}
+		out = append(out, name+"|"+enhex([]byte(got.Path())))
+	}
+	return strings.Join(out, " ")
+}
+
 func init() {
 	handlers["find17"] = runFind17
+	handlers["findrev"] = runFindRev
 }
